@@ -90,6 +90,15 @@ class World:
 _CACHE = {}  # type: Dict[str, World]
 
 
+def drive_in(ctx: contextvars.Context, coro: Any) -> Any:
+    """Run a coroutine to completion inside ctx, resuming it at every suspension."""
+    try:
+        while True:
+            ctx.run(coro.send, None)
+    except StopIteration as stop:
+        return stop.value
+
+
 def _contexts(w: World, mode: int, n: int) -> List[contextvars.Context]:
     if mode == 0:
         return [contextvars.Context() for _ in range(n)]
@@ -229,6 +238,15 @@ def run_sched(shape: str, ncalls: int, mode: int, s0: int, s1: int, s2: int, s3:
         except Tag as err:
             outcome[pick] = ("violation", err.label)
     ok = True
+    # afterwards the same task makes a further, violating call: it must be rejected (no mark left behind by the
+    # overlapping check phases)
+    for i in range(ncalls):
+        try:
+            drive_in(ctxs[i], w.call((100 + i, False)))
+            ok = False
+        except Tag as err:
+            if err.label != ("pre", 100 + i):
+                ok = False
     for i in range(ncalls):
         # the verdict of a call run alone depends only on its own input
         want = ("ret", ("res", i)) if valid[i] else ("violation", ("pre", i))
